@@ -430,6 +430,27 @@ func genC19() (string, []string) {
 `, reg, sig, vuse, callback, inner, outer, id, nOuter, nInner))
 		}
 	}
+	// a callback that creates many new names (the globals table grows while a frame is running) and publishes a value:
+	// the running script sees what the host set
+	add("globals_grow_during_a_callback", prelude(1, 0)+`	vm.Set("main.grow", NewFunc(1, 1, func(v *VM, args []Value) Value {
+		for i := 0; i < 600; i++ {
+			v.Set(verifName("host.fresh", i), Int32(int32(i)))
+		}
+		v.Set("main.level", Int32(7))
+		return args[0]
+	}))
+	if _, err := verifEval(vm, verifMkFS(nil), "var x = 1\nvar level = 0\nfunc g(a int) int {\n\tx = a\n\tk := grow(x)\n\tx = x + 1\n\treturn k*1000 + x*10 + level\n}", 0); err != nil {
+		verifAssert(false, "C19/grow/eval")
+		return
+	}
+	verifAssume(verifAnd(a[0] >= 0, a[0] < 1000))
+	rets, err := vm.Call("main.g", 1, Int32(a[0]))
+	verifAssert(err == nil && len(rets) == 1, "C19/grow/outcome")
+	if err == nil && len(rets) == 1 {
+		verifAssert(rets[0].num == float64(a[0]*1000+(a[0]+1)*10+7), "C19/grow/script-sees-globals-set-during-the-callback")
+	}
+	verifAssert(vm.Get("main.level").num == 7 && vm.Get("main.x").num == float64(a[0]+1), "C19/grow/host-sees-the-same")
+`)
 	// Set binds a NAME: rebinding one name does not change what other names (or captured Values) of the old function do
 	add("set_rebinds_one_name_only", prelude(2, 0)+`	addF := NewFunc(2, 1, func(v *VM, args []Value) Value { return Int32(int32(args[0].Int()) + int32(args[1].Int())) })
 	mulF := NewFunc(2, 1, func(v *VM, args []Value) Value { return Int32(int32(args[0].Int()) * int32(args[1].Int())) })
